@@ -609,6 +609,39 @@ var edits = []progEdit{
 		}
 		return nil, "", false
 	}},
+	{"semantic:retarget-wildcard-binding", true, func(p *Prog, plan *Tape) (*Prog, string, bool) {
+		// `* = WFIRST` becomes `* = WSECOND`: another call of the same stage, other values
+		q := cloneProg(p)
+		r := reachable(q)
+		for _, pl := range q.Pipelines {
+			if !r[pl.Name] {
+				continue
+			}
+			for _, c := range pl.Calls {
+				for i := range c.Binds {
+					if c.Binds[i].Param != "*" || c.Binds[i].E == nil || c.Binds[i].E.Kind != ERef || c.Binds[i].E.Self || len(c.Binds[i].E.Path) != 0 {
+						continue
+					}
+					var from *CallDef
+					for _, o := range pl.Calls {
+						if o.Id == c.Binds[i].E.Call {
+							from = o
+						}
+					}
+					for _, o := range pl.Calls {
+						if from != nil && o != from && o != c && o.Callee == from.Callee && !o.Mapped && !from.Mapped {
+							e := *c.Binds[i].E
+							e.Call = o.Id
+							c.Binds = append([]Bind(nil), c.Binds...)
+							c.Binds[i].E = &e
+							return q, "", true
+						}
+					}
+				}
+			}
+		}
+		return nil, "", false
+	}},
 	{"semantic:retarget-reference-member", true, func(p *Prog, plan *Tape) (*Prog, string, bool) {
 		// a reference keeps its root (self.x / CALL.out) but projects a different
 		// member of the same struct, of the same type: self.cfg.lanes -> self.cfg.reads
@@ -970,6 +1003,22 @@ func c15Case(c *Ctx) {
 				}
 			}
 			break
+		}
+	}
+	if c.Plan.Draw(3) == 0 {
+		// a wildcard binding: a stage called twice with different arguments, and a
+		// consumer taking all its inputs from the first of the two calls (`* = WFIRST`)
+		intT := Ty{Base: "int"}
+		if top := prog.Pipeline(prog.Top.Callee); top != nil && prog.Stage("WSRC") == nil {
+			prog.Stages = append(prog.Stages,
+				&StageDef{Name: "WSRC", SrcKind: "comp", Ins: []Field{{"k", intT}}, Outs: []Field{{"wa", intT}, {"wb", intT}}},
+				&StageDef{Name: "WSINK", SrcKind: "comp", Ins: []Field{{"wa", intT}, {"wb", intT}}, Outs: []Field{{"done", intT}}})
+			lit := func(v int) *Expr { return &Expr{Kind: ELit, Val: int64(v), T: intT} }
+			top.Calls = append(top.Calls,
+				&CallDef{Callee: "WSRC", Id: "WFIRST", Binds: []Bind{{"k", lit(1), false}}},
+				&CallDef{Callee: "WSRC", Id: "WSECOND", Binds: []Bind{{"k", lit(2), false}}},
+				&CallDef{Callee: "WSINK", Id: "WSINK", Binds: []Bind{{"*", &Expr{Kind: ERef, Call: "WFIRST"}, false}}})
+			c.Res.Probes["programs-with-wildcard-binding"]++
 		}
 	}
 	fcfg := &FCfg{MaxLen: 1 + c.Plan.Draw(3), MaxChunks: c.Plan.Draw(3), Salt: "c15"}
